@@ -85,7 +85,15 @@ class LWorld:
         self.ino += 1
         return self.ino
 
+    def check_alive(self) -> None:
+        """A terminated worker process makes no further system calls: unwind its thread."""
+        pid = self.current_pid()
+        for x in self.workers:
+            if x.pid == pid and getattr(x, "killed", False):
+                raise _Killed()
+
     def lstat(self, p: Any) -> _Stat:
+        self.check_alive()
         self.sched.op("fs.lstat")
         me0 = next((x for x in self.workers if x.pid == self.current_pid()), None)
         if me0 is not None and me0.sock is not None and me0.sock.closed and self.perturb is not None:
@@ -108,6 +116,7 @@ class LWorld:
         return st
 
     def unlink(self, p: Any) -> None:
+        self.check_alive()
         self.sched.op("fs.unlink")
         k = self.norm(p)
         n = self.fs.get(k)
@@ -323,6 +332,7 @@ class FakeUnixSocket:
     # -- server
     def bind(self, path: Any) -> None:
         w = self.w
+        w.check_alive()
         w.sched.op("sock.bind")
         k = w.norm(path)
         if k in w.fs:
@@ -333,6 +343,7 @@ class FakeUnixSocket:
         w.log.add("bind", k, "ino", n.ino, "pid", self.owner_pid)
 
     def listen(self, backlog: int = 0) -> None:
+        self.w.check_alive()
         self.listener = FakeListener(self.w.sched, f"listener:{self.path}")
         self.listener.settimeout(self._timeout)
         if self.w.on_listen is not None:
@@ -520,6 +531,9 @@ class FakeWorkerProc:
 
     def terminate(self) -> None:
         self.w.log.add("worker-terminate", self.pid)
+        # SIGTERM: the process does nothing further.  A worker that is still starting up (slow start, stalled thread) has
+        # no socket to close yet; it is unwound at its next system call (see LWorld.check_alive)
+        self.killed = True
         for n in list(self.w.fs.values()):
             if n.kind == "sock" and n.sock is not None and n.sock.owner_pid == self.pid:
                 n.sock.close()
